@@ -121,6 +121,9 @@ def cases(tier, seed):
                     for gap in GAPS:
                         yield {"gen": gen, "ops": pre + build([(atom, send, gap)])}
     if tier == "thorough":
+        from .. import fidelity
+        for name in sorted(fidelity.SCENARIOS):
+            yield {"k": "fidelity", "scenario": name, "gen": 4, "ops": []}
         for gen in (4, 5):
             for a1, a2 in itertools.product(A, A):
                 for s1, s2 in itertools.product(SENDS[:3], SENDS[:3]):
@@ -311,7 +314,29 @@ def baseline_of(gen, raw):
         (gen, bytes(raw)), baseline_delivery(gen, raw)) or _BASE[(gen, bytes(raw))]
 
 
+def run_fidelity(case):
+    """SimNet vs real loopback TCP (thorough tier).  A mismatch that persists over three
+    attempts means the simulated network cannot be trusted: raised as a harness error, which
+    the runner reports as INCONCLUSIVE (never as a violation of pyairtouch)."""
+    from .. import fidelity
+    last = None
+    for attempt in range(3):
+        try:
+            ok, sim, real = fidelity.cross_check(case["scenario"])
+        except (TimeoutError, OSError) as e:   # loaded machine / port trouble: try again
+            last = repr(e)
+            continue
+        if ok:
+            return {"violations": [], "evals": 1, "decided": 1,
+                    "obs": {"fidelity_scenarios_agree": 1},
+                    "sample": {"fidelity": case["scenario"], "client_visible": sim}}
+        last = {"sim": sim, "real": real}
+    raise RuntimeError(f"SimNet fidelity mismatch in scenario {case['scenario']}: {last}")
+
+
 def run_case(case):
+    if case.get("k") == "fidelity":
+        return run_fidelity(case)
     gen = case["gen"]
     ops = expand(gen, case["ops"])
     out = {}
